@@ -13,7 +13,7 @@ import json
 from harness import common, gen, oracles
 from harness.props import cfg_transforms as T
 
-ALPH = ["a", "é", "€", "😀", "b", "ü"]     # 1, 2, 3, 4, 1, 2 bytes; é and ü share the first byte
+ALPH = ["a", "é", "€", "😀", "b", "ü", "→", "≤", "む", "←"]   # → ← ≤ € share the lead byte E2 (→ ← also the 2nd byte); € and む share the 2nd byte     # 1, 2, 3, 4, 1, 2 bytes; é and ü share the first byte
 
 
 def _bytes_of(x):
@@ -133,6 +133,12 @@ def make_case(rng, i, tier):
     # grammar with multi-byte and multi-character terminals
     gterms = rng.sample(["a", "é", "€", "ab", "é€", "😀"], 3)
     g = gen.gen_finite_cfg(rng, terms=gterms)
+    if rng.random() < 0.4:
+        # two rules of one head that flatten to the same byte body (multi-character terminal vs its characters)
+        gterms = sorted(set(gterms) | {"a", "b", "ab"})
+        g["V"] = sorted(set(g["V"]) | {"a", "b", "ab"})
+        h = rng.choice(["S", "N1"])
+        g["rules"] += [[common.frac_str(rng.choice(gen.SMALL)), h, ["ab"]], [common.frac_str(rng.choice(gen.SMALL)), h, ["a", "b"]]]
     gx = gen.all_strings(gterms, 2)
     gb = {json.dumps(_bytes_of(x)) for x in gx[:40]}
     gbss = [json.loads(e) for e in gb][:25]
